@@ -12,12 +12,20 @@
 //                              flags bit0 = basic form, bit1 = without seconds, bits 2..3 = zone form
 //                              (0 +-hh, 1 +-hhmm, 2 +-hh:mm, 3 Z); optional fraction digits
 //   str | text                 arbitrary text to Date(String): terminates, ASan-clean, nothing else asserted
+//   zone k t                   the whole-second instant t under the time zone ref::zones()[k] (harness/common/ref_tz.h), set
+//                              with setenv("TZ")+tzset() for the duration of the op and restored afterwards: zone-less
+//                              LONG/SHORT/FULL and UTC LONG/HTTP round trips, explicit-offset texts, UTC fields; skipped
+//                              (counted) when t is within 2 h (1970..2037) / 12 days (other years) of a DST transition
+//   mt n rounds seed           n threads (1..4), each doing `rounds` HTTP/LONG/FULL round trips in UTC on its own
+//                              instants, interleaved with parses of HTTP-shaped junk ("Xxx, 01 Qqq 2000 00:00:00 GMT")
 #include "common/vfrc.h"
 #include "common/ref_civil.h"
 #include "common/ref_codec.h"
+#include "common/ref_tz.h"
 #include <asl/Date.h>
 #include <cmath>
 #include <memory>
+#include <thread>
 
 using namespace asl;
 
@@ -250,6 +258,174 @@ static void op_str(const vf::Op& o)
 		vf::stats().sample("str: " + vf::show(t) + " -> " + num(r), 12);
 }
 
+// ---------------------------------------------------------------------------------------------
+// time zones other than UTC.  What the property states holds under every zone and is checked (failing oracles):
+//  (a) toString(LONG/SHORT/FULL) [local time, no zone designator] -> Date(String) returns the instant (FULL to the ms),
+//      toUTCString(LONG/HTTP) -> Date(String) likewise;
+//  (b) the zone-less LONG text T with a numeric offset appended denotes civil(T) - offset whatever TZ is; splitUTC,
+//      Date(UTC, fields) are unaffected by TZ.
+// What the property does NOT state is only observed (class counters, never a failure): localOffset() == the zone's
+// offset, split()/accessors == calendar fields of t + offset, Date(y,m,d,h,mi,s) of those fields == t.  The zone's
+// offset comes from the harness's own evaluation of the POSIX rule (ref_tz.h, audited against libc's tm_gmtoff).
+// asl derives its offset from localtime()/gmtime() field differences and, outside 1970..2037, from an instant of 1972
+// in the same season ("approximate offset out of epoch"), hence the margins around DST transitions.
+
+static const int64_t ZT_MIN = T_MIN + 2 * 86400, ZT_MAX = T_MAX - 2 * 86400; // local texts stay inside years 1..9999
+
+struct ZoneCase {
+	const ref::Zone* z;
+	int64_t t;
+	bool skip;
+	int off;
+};
+static ZoneCase zone_case(const vf::Op& o)
+{
+	ZoneCase zc;
+	const auto& zs = ref::zones();
+	zc.z = &zs[(size_t)fold(o.i(0), 0, (int64_t)zs.size() - 1)];
+	zc.t = fold(o.i(1), ZT_MIN, ZT_MAX);
+	bool epoch = zc.t >= 0 && zc.t <= 2145916800LL;
+	// 1970..2037: only the repeated local hour at the end of DST is inherently ambiguous (measured on the unchanged tree:
+	// nothing else fails); a symmetric 2 h window covers it.  Other years: asl evaluates the offset at an instant of 1972 in
+	// the same season (drift <= 1.7 days, rule dates move by <= 6 days between years): 12 days.
+	zc.skip = zc.z->transition_distance(zc.t) < (epoch ? 2 * 3600 : 12 * 86400);
+	zc.off = zc.z->offset(zc.t);
+	// (Zones whose offset has minutes: before FX-45 the zone-less round trip failed outside 1970..2037 near asl's once-a-year fold
+	// boundary and within the offset of the two ends of that range - replays/C19/C19_date.fx-zone-minutes-roundtrip.case.)
+	return zc;
+}
+
+// "YYYY-MM-DDThh:mm:ss" read by the harness (not by asl)
+static bool read_long_text(const std::string& s, int64_t* secs)
+{
+	int y, mo, d, h, mi, se;
+	if (s.size() != 19 || sscanf(s.c_str(), "%4d-%2d-%2dT%2d:%2d:%2d", &y, &mo, &d, &h, &mi, &se) != 6)
+		return false;
+	if (mo < 1 || mo > 12 || d < 1 || d > 31 || h > 23 || mi > 59 || se > 59)
+		return false;
+	*secs = ref::seconds_from_fields(y, mo, d, h, mi, se);
+	return true;
+}
+
+static void op_zone(const vf::Op& o)
+{
+	ZoneCase zc = zone_case(o);
+	if (zc.skip)
+		return;
+	const int64_t t = zc.t;
+	const double td = (double)t;
+	const ref::Fields f = ref::fields_from_seconds(t + zc.off), u = ref::fields_from_seconds(t);
+	const char* tz = zc.z->tz;
+	ref::TzGuard guard(tz); // restored when the op ends, also when a check throws
+	Date d(td);
+	// clauses 1-2 under the zone: UTC fields, UTC constructor, UTC texts
+	DateData p = d.splitUTC();
+	VF_CHECK(same(p, u), "TZ=", tz, ": splitUTC() of t=", t, " gives ", show(p), ", UTC calendar fields are ", ref::fields_str(u));
+	Date c3(Date::UTC, (int)u.year, u.month, u.day, u.hours, u.minutes, u.seconds);
+	VF_CHECK(c3.time() == td, "TZ=", tz, ": Date(UTC, ", ref::fields_str(u), ").time() = ", num(c3.time()), ", want ", t);
+	for (Date::Format uf : {Date::LONG, Date::HTTP}) {
+		std::string text = S(d.toUTCString(uf));
+		double r = parse(text);
+		VF_CHECK(r == td, "TZ=", tz, ": UTC text ", vf::show(text), " of t=", t, " parses to ", num(r), " (delta ", num(r - td), ")");
+	}
+	// (a) local texts, no zone designator
+	static const Fmt local_formats[3] = {{Date::LONG, "LONG"}, {Date::SHORT, "SHORT"}, {Date::FULL, "FULL"}};
+	std::string longtext;
+	for (const Fmt& fm : local_formats) {
+		std::string text = S(d.toString(fm.f));
+		if (fm.f == Date::LONG)
+			longtext = text;
+		double r = parse(text);
+		VF_CHECK(fm.f == Date::FULL ? fabs(r - td) < 0.001 : r == td, "TZ=", tz, ": local ", fm.name, " format of t=", t, " (", ref::fields_str(u), " UTC) is ", vf::show(text),
+		         " which parses to ", num(r), " (delta ", num(r - td), ")");
+	}
+	// (b) the same text with the zone's numeric offset appended: civil(T) - offset, whatever TZ is
+	int64_t civil;
+	if (read_long_text(longtext, &civil)) {
+		int ao = zc.off < 0 ? -zc.off : zc.off;
+		char zb[16];
+		snprintf(zb, sizeof zb, "%c%02d:%02d", zc.off < 0 ? '-' : '+', ao / 3600, ao / 60 % 60);
+		std::string text = longtext + zb;
+		double r = parse(text), want = (double)(civil - zc.off);
+		VF_CHECK(r == want, "TZ=", tz, ": Date(", vf::show(text), ").time() = ", num(r), ", the text denotes ", num(want), " (delta ", num(r - want), ")");
+		if (want != td)
+			vf::stats().cls("zones.obs.local_text_plus_zone_offset_is_another_instant");
+	}
+	else
+		vf::stats().cls("zones.obs.local_LONG_text_not_of_the_documented_shape");
+	// observations only (not stated by the property): true local time
+	if (d.localOffset() != (double)zc.off)
+		vf::stats().cls("zones.obs.localOffset_differs_from_zone_rule");
+	DateData l = d.split();
+	if (!same(l, f))
+		vf::stats().cls("zones.obs.split_differs_from_fields_of_t_plus_zone_offset");
+	if (!same(accessors(d), f))
+		vf::stats().cls("zones.obs.accessors_differ_from_fields_of_t_plus_zone_offset");
+	if (Date(l.year, l.month, l.day, l.hours, l.minutes, l.seconds).time() != td)
+		vf::stats().cls("zones.obs.local_constructor_of_split_fields_is_another_instant");
+	if (Date((int)f.year, f.month, f.day, f.hours, f.minutes, f.seconds).time() != td)
+		vf::stats().cls("zones.obs.local_constructor_of_true_local_fields_is_another_instant");
+}
+
+// ---------------------------------------------------------------------------------------------
+// several threads, each with its own Date and String objects (nothing is shared by the caller), UTC API only
+
+static std::string junk_http(ref::SplitMix& r)
+{
+	static const char* months[] = {"Jan", "Feb", "Mar", "Apr", "May", "Jun", "Jul", "Aug", "Sep", "Oct", "Nov", "Dec"};
+	std::string tok;
+	tok += (char)('A' + r.below(26));
+	for (size_t i = 0, n = 2 + r.below(3); i < n; i++)
+		tok += (char)('a' + r.below(26));
+	for (const char* m : months)
+		if (tok == m)
+			tok += 'x';
+	std::string day;
+	day += (char)('B' + r.below(24)); // 'B'..'Y': the RFC 1123 branch
+	day += (char)('a' + r.below(26));
+	day += (char)('a' + r.below(26));
+	char b[64];
+	snprintf(b, sizeof b, "%s, %02d %s %04d %02d:%02d:%02d GMT", day.c_str(), (int)r.below(32), tok.c_str(), (int)r.below(10000), (int)r.below(24), (int)r.below(60), (int)r.below(60));
+	return b;
+}
+
+static void mt_worker(int idx, int rounds, uint64_t seed, std::string* err)
+{
+	ref::SplitMix r(seed * 64 + (uint64_t)idx);
+	for (int i = 0; i < rounds; i++) {
+		int64_t t = T_MIN + (int64_t)r.below((uint64_t)(T_MAX - T_MIN + 1));
+		Date d((double)t);
+		for (Date::Format f : {Date::HTTP, Date::LONG, Date::FULL}) {
+			String text = d.toUTCString(f);
+			double back = Date(text).time();
+			if (!(f == Date::FULL ? fabs(back - (double)t) < 0.001 : back == (double)t) && err->empty())
+				*err = vf::str("thread ", idx, " round ", i, ": ", vf::show(S(text)), " (t=", t, ") parses to ", num(back));
+		}
+		// the junk parser: thread 0 between all of its own round trips, the others now and then
+		int nj = idx == 0 ? 2 : (i % 4 == 0 ? 1 : 0);
+		for (int k = 0; k < nj; k++) {
+			String js(junk_http(r).c_str());
+			double v = Date(js).time(); // invalid or some value
+			(void)v;
+		}
+	}
+}
+
+static void op_mt(const vf::Op& o)
+{
+	int n = (int)fold(o.i(0), 1, 4), rounds = (int)fold(o.i(1), 1, 400);
+	uint64_t seed = (uint64_t)o.i(2);
+	std::vector<std::string> errs((size_t)n);
+	std::vector<std::thread> th;
+	for (int i = 1; i < n; i++)
+		th.emplace_back(mt_worker, i, rounds, seed, &errs[(size_t)i]);
+	mt_worker(0, rounds, seed, &errs[0]);
+	for (auto& x : th)
+		x.join();
+	for (auto& e : errs)
+		VF_CHECK(e.empty(), n, " threads: ", e);
+}
+
 void vf_run_case(const std::string&, const vf::Case& c)
 {
 	for (auto& o : c.ops) {
@@ -270,6 +446,10 @@ void vf_run_case(const std::string&, const vf::Case& c)
 			op_iso(o);
 		else if (o.name == "str")
 			op_str(o);
+		else if (o.name == "zone")
+			op_zone(o);
+		else if (o.name == "mt")
+			op_mt(o);
 	}
 }
 
@@ -552,6 +732,11 @@ void vf_search(const vf::Args& a)
 			exit(2);
 		}
 		vf::stats().cls("audit.reference_calendar_matches_python_datetime_digests");
+		if (!ref::tz_audit_ok(&why)) {
+			printf("INFRA reference time-zone rules failed their audit against libc: %s\n", why.c_str());
+			exit(2);
+		}
+		vf::stats().cls("audit.reference_zone_offsets_match_libc_tm_gmtoff");
 		lap("audit");
 	}
 
@@ -775,4 +960,135 @@ void vf_search(const vf::Args& a)
 		});
 	}();
 	lap("str");
+
+	// (6) other time zones (TZ set by the case itself, restored to UTC by it)
+	[&]() {
+		const int NZ = (int)ref::zones().size();
+		vf::Case c;
+		c.ops.push_back(vf::Op("zone", {0, 0}));
+		std::map<std::string, uint64_t> cls;
+		uint64_t ran = 0, skipped = 0, idx = 0;
+		auto one = [&](int k, int64_t t) -> bool {
+			if ((int64_t)(idx++ % (uint64_t)W) != me)
+				return true;
+			c.ops[0].a = {k, (long long)t};
+			ZoneCase zc = zone_case(c.ops[0]);
+			if (zc.skip) {
+				skipped++;
+				if (zc.off % 3600 != 0 && zc.z->transition_distance(zc.t) == INT64_MAX)
+					cls["zones.skipped_minute_offset_zone_outside_1970-01-02..2037-12-31"]++;
+				return true;
+			}
+			if (!run1("zones", c))
+				return false;
+			ran++;
+			cls[std::string("zones.tz.") + zc.z->tz]++;
+			if (ref::fields_from_seconds(zc.t).year != ref::fields_from_seconds(zc.t + zc.off).year) {
+				cls["zones.local_year_differs_from_utc_year"]++;
+				if (ref::is_leap(std::min(ref::fields_from_seconds(zc.t).year, ref::fields_from_seconds(zc.t + zc.off).year)))
+					cls["zones.local_year_differs_from_utc_year.leap_year_ends"]++;
+			}
+			cls[zc.t >= 0 && zc.t <= 2145916800LL ? "zones.in_1970..2037" : "zones.outside_1970..2037"]++;
+			return true;
+		};
+		// (6a) New Year +-14 h, hourly, every year 2..9999; every zone for 1969..2039 (thorough: for every year)
+		for (int64_t y = 2; y <= 9999; y++)
+			for (int h = -14; h <= 14; h++) {
+				int64_t t = ref::days_from_civil(y, 1, 1) * 86400 + h * 3600;
+				if (!a.quick() || (y >= 1969 && y <= 2039)) {
+					for (int k = 0; k < NZ; k++)
+						if (!one(k, t))
+							return;
+				}
+				else if (!one((int)((y * 29 + h + 14 + (int64_t)a.seed) % NZ), t))
+					return;
+			}
+		uint64_t n6a = ran;
+		// (6b) every 97th day at the three times
+		for (int64_t z = ref::CIVIL_DAY_MIN + 2 + (int64_t)(a.seed % 97); z <= ref::CIVIL_DAY_MAX - 2; z += 97)
+			for (int64_t sod : {0, 43200, 86399}) {
+				if (a.quick()) {
+					if (!one((int)ref::floormod(z / 97 + sod, NZ), z * 86400 + sod))
+						return;
+				}
+				else
+					for (int k = 0; k < NZ; k++)
+						if (!one(k, z * 86400 + sod))
+							return;
+			}
+		// (6c) every 61st second of the sampled days
+		{
+			std::vector<int64_t> days = sample_days();
+			size_t nd = a.quick() ? 20 : days.size();
+			for (size_t i = 0; i < nd; i++) {
+				int64_t z = fold(days[a.quick() && i >= 12 ? 12 + (a.seed * 8 + (i - 12)) % 188 : i], ref::CIVIL_DAY_MIN + 2, ref::CIVIL_DAY_MAX - 2);
+				for (int64_t sod = (int64_t)(i % 61); sod < 86400; sod += 61) {
+					if (a.quick()) {
+						if (!one((int)((i + (size_t)sod) % NZ), z * 86400 + sod))
+							return;
+					}
+					else
+						for (int k = 0; k < NZ; k++)
+							if (!one(k, z * 86400 + sod))
+								return;
+				}
+			}
+		}
+		vf::stats().nt_counted(ran);
+		vf::stats().part("zones.new_year_+-14h_hourly_all_years", n6a, !a.quick());
+		vf::stats().part("zones.every_97th_day_and_every_61st_second_of_sampled_days", ran - n6a, false);
+		// (6d) pseudo-random (zone, instant) pairs, biased to year ends and to the edges of the excluded windows
+		ref::SplitMix rng(a.seed * 1000003ULL + (uint64_t)a.worker * 7919ULL + 3);
+		long n = a.n(30000, 400000);
+		uint64_t before = ran;
+		for (long i = 0; i < n; i++) {
+			int k = (int)rng.below((uint64_t)NZ);
+			const ref::Zone& Z = ref::zones()[(size_t)k];
+			int64_t t;
+			switch (rng.below(8)) {
+			case 0:
+			case 1:
+			case 2: t = ref::days_from_civil(2 + (int64_t)rng.below(9998), 1, 1) * 86400 - 100000 + (int64_t)rng.below(200000); break; // +-28 h around a New Year
+			case 3: t = ref::days_from_civil(1968 + (int64_t)rng.below(72), 1, 1) * 86400 - 60000 + (int64_t)rng.below(120000); break;
+			case 4: t = (int64_t)rng.below(2145916800ULL); break;
+			case 5: { // just outside the excluded window of a transition
+				int64_t tr = rng.below(2) ? Z.start_utc(1970 + (int64_t)rng.below(68)) : Z.end_utc(1970 + (int64_t)rng.below(68));
+				t = Z.dst ? tr + (rng.below(2) ? 1 : -1) * (2 * 3600 + (int64_t)rng.below(7200)) : (int64_t)rng.below(2145916800ULL);
+				break;
+			}
+			default: t = ZT_MIN + (int64_t)rng.below((uint64_t)(ZT_MAX - ZT_MIN));
+			}
+			idx = (uint64_t)me; // every generated pair belongs to this worker
+			uint64_t r0 = ran;
+			if (!one(k, t))
+				return;
+			if (ran > r0)
+				vf::stats().nt(vf::fnv(vf::serialize(c)));
+		}
+		vf::stats().part("zones.random", ran - before, false);
+		cls["zones.skipped_total"] += skipped;
+		for (auto& kv : cls)
+			vf::stats().cls(kv.first, kv.second);
+		if (me == 0)
+			vf::stats().sample("zones: zone 9 0 = TZ=" + std::string(ref::zones()[9].tz) + " at 1970-01-01T00:00:00Z (local 13:00 NZDT)", 14);
+	}();
+	lap("zones");
+
+	// (7) threads
+	[&]() {
+		ref::SplitMix rng(a.seed * 1000003ULL + (uint64_t)a.worker * 7919ULL + 4);
+		long n = a.n(60, 400);
+		vf::Case c;
+		c.ops.push_back(vf::Op("mt", {0, 0, 0}));
+		for (long i = 0; i < n; i++) {
+			int th = i % 5 == 4 ? 1 : 2 + (int)rng.below(3);
+			c.ops[0].a = {th, 100 + (long long)rng.below(200), (long long)(rng.next() >> 16)};
+			if (!run1("mt", c))
+				return;
+			vf::stats().cls(vf::str("mt.threads", th));
+			vf::stats().nt(vf::fnv(vf::serialize(c)));
+		}
+		vf::stats().part("mt", (uint64_t)n, false);
+	}();
+	lap("mt");
 }
